@@ -82,7 +82,6 @@ Hypothesis Hb : ch_buf st = Some m.
 Hypothesis Hopen : ch_closed st = false.
 Hypothesis Hfc : forall i, (i < n)%nat -> chans c !! kn i = None /\ forall o, obj_in c o -> kn i ∉ provides o /\ kn i ∉ refs o.
 Hypothesis Hfp : forall i, (i < n)%nat -> procs c !! wpid i = None.
-Hypothesis Hinit : forall cl, In cl cls -> exists kc, chan cl = Some kc.
 Hypothesis Hnd : NoDup (flat_map name_chans cls).
 Hypothesis Hsub : forall j, In j (flat_map name_chans cls) -> j ∈ refs (OProc p pp) \/ j ∈ refs (OMsg k m).
 Hypothesis Hdang : forall j, j ∈ provides (OProc p pp) \/ j ∈ provides (OMsg k m) ->
@@ -213,3 +212,201 @@ Proof.
         destruct (Hsub _ Hin) as [H|H]; [by destruct (Hno (OProc p pp) Hp)|by destruct (Hno (OMsg k m) Hmsg)].
 Qed.
 End Finish.
+
+(* ------------------------------------------------------------------ instances *)
+Section Instances.
+Variable D : tenv.
+Variable F : list fundef.
+Variable teq : sty -> sty -> Prop.
+Hypothesis Hteq : teq_laws D teq.
+
+Lemma fresh_above Δ c p pp :
+  cfg_typed D F teq Δ c -> ns_ok c -> procs c !! p = Some pp ->
+  forall j, (pr_next pp <= j)%nat ->
+    chans c !! (p ++ [j]) = None /\ procs c !! (p ++ [j]) = None /\
+    forall o, obj_in c o -> p ++ [j] ∉ provides o /\ p ++ [j] ∉ refs o.
+Proof.
+  intros Hc Hns Hp j Hj.
+  assert (HkΔ : Δ !! (p ++ [j]) = None) by (apply (ct_fresh D F teq Δ c Hc p _ j [] Hp); lia).
+  split; [|split].
+  - destruct (chans c !! (p ++ [j])) eqn:E; [|done]. exfalso.
+    eapply (ns_ok_not_fresh_cid c p _ (p ++ [j]) j Hns Hp); [by eexists|lia|done].
+  - destruct (procs c !! (p ++ [j])) eqn:E; [|done]. exfalso.
+    eapply (ns_ok_not_fresh_pid c p _ (p ++ [j]) j Hns Hp); [by eexists|lia|done].
+  - intros o Ho. split; intros Hk.
+    + apply (proj1 (eq_None_not_Some _) HkΔ). exact (obj_chans_typed D F teq Δ c o _ Hc Ho (or_introl Hk)).
+    + apply (proj1 (eq_None_not_Some _) HkΔ). exact (obj_chans_typed D F teq Δ c o _ Hc Ho (or_intror Hk)).
+Qed.
+
+(* the channels a positive message carries *)
+Definition carried (m : msg) : list name :=
+  (if initialized (m_c1 m) then [m_c1 m] else []) ++ (if initialized (m_c2 m) then [m_c2 m] else []).
+
+Lemma carried_init m cl : In cl (carried m) -> exists kc, chan cl = Some kc.
+Proof.
+  unfold carried, initialized. intros H. apply in_app_iff in H as [H|H].
+  - destruct (chan (m_c1 m)) eqn:E; [|destruct H]. destruct H as [<-|[]]. eauto.
+  - destruct (chan (m_c2 m)) eqn:E; [|destruct H]. destruct H as [<-|[]]. eauto.
+Qed.
+
+Lemma carried_chans m : flat_map name_chans (carried m) = name_chans (m_c1 m) ++ name_chans (m_c2 m).
+Proof.
+  unfold carried, initialized, name_chans. destruct (chan (m_c1 m)) eqn:E1, (chan (m_c2 m)) eqn:E2; simpl; by rewrite ?E1, ?E2.
+Qed.
+
+Lemma pos_msg_refs Δ k m : msg_typed D teq Δ k m -> is_pos_rule (m_rule m) = true ->
+  name_chans (m_c1 m) ++ name_chans (m_c2 m) = refs (OMsg k m) /\ provides (OMsg k m) = [k].
+Proof.
+  intros (T & HT & Hm) Hpos. unfold refs, provides. destruct (m_rule m); try discriminate.
+  - done.
+  - destruct Hm as (? & _ & H1 & H2). unfold name_chans. by rewrite H1, H2.
+  - destruct Hm as (? & ? & ? & _ & _ & H2). unfold name_chans at 2. rewrite H2. by rewrite app_nil_r.
+  - destruct Hm as (? & ? & ? & _ & _ & _ & H2). unfold name_chans at 2. rewrite H2. by rewrite app_nil_r.
+Qed.
+
+(* a droppable positive forward receives a message: the message is dropped *)
+Theorem topo_dropfwd_recv Δ c p pp to from k st m e :
+  cfg_typed D F teq Δ c -> Topo c -> LinCfg c -> ns_ok c -> procs c !! p = Some pp ->
+  pr_body0 pp = FFwd to from true -> chan from = Some k ->
+  chans c !! k = Some st -> ch_buf st = Some m -> ch_closed st = false -> is_pos_rule (m_rule m) = true ->
+  (forall j o2, j ∈ cids_of (pr_provs pp) -> obj_in c o2 -> j ∉ refs o2) ->
+  on_message p pp m = EOk e -> Topo (apply_effect (put_msg c k st None) p pp e).
+Proof.
+  intros Hc Ht Hl Hns Hp Hbody Hfrom Hk Hb Hopen Hpos Hunref He.
+  pose proof (ct_msgs D F teq Δ c Hc k st m Hk Hb) as Hmt.
+  destruct (pos_msg_refs Δ k m Hmt Hpos) as [Hrefs Hprov].
+  assert (Hmsg : obj_in c (OMsg k m)) by (exists st; done).
+  unfold on_message in He. rewrite Hbody in He. cbn [negb] in He. rewrite !andb_false_r in He.
+  fold (carried m) in He. destruct (droppable_fwds p pp (carried m)) as [[ss cs] p2] eqn:Ed. injection He as <-.
+  pose proof (topo_finish_fwds c p pp k st m (carried m)) as Hfin. unfold after_finish in Hfin. rewrite Ed in Hfin.
+  assert (Hkrefs : k ∈ refs (OProc p pp)).
+  { cbn. rewrite Hbody. simpl. unfold name_chans at 2. rewrite Hfrom. set_solver. }
+  apply Hfin; try done.
+  - intros i Hi. destruct (fresh_above Δ c p pp Hc Hns Hp (pr_next pp + i) ltac:(lia)) as (H1 & _ & H3). done.
+  - intros i Hi. destruct (fresh_above Δ c p pp Hc Hns Hp (pr_next pp + length (carried m) + i) ltac:(lia)) as (_ & H2 & _). done.
+  - rewrite carried_chans, Hrefs. exact (lc_msgs c Hl k st m Hk Hb).
+  - intros j Hj. right. rewrite carried_chans, Hrefs in Hj. by apply elem_In.
+  - intros j [Hj|Hj].
+    + split; [intros o2 Ho2 Hj2; destruct (Hunref j o2 Hj Ho2 Hj2)|].
+      rewrite carried_chans, Hrefs. intros Hin. apply elem_In in Hin. exact (Hunref j (OMsg k m) Hj Hmsg Hin).
+    + rewrite Hprov in Hj. apply elem_of_list_singleton in Hj as ->. split.
+      * intros o2 Ho2 Hj2. left. eapply (topo_ref_unique c Ht); eauto.
+      * rewrite carried_chans, Hrefs. intros Hin. apply elem_In in Hin.
+        eapply (topo_ne c (OMsg k m) k k); eauto. rewrite Hprov. set_solver.
+Qed.
+End Instances.
+
+(* ------------------------------------------------------------------ free names: their channels occur in the term, without repetition *)
+Notation chs l := (flat_map name_chans l).
+
+Lemma in_append_if_not_self x n l : In x (append_if_not_self n l) -> x = n \/ In x l.
+Proof. unfold append_if_not_self. destruct (is_self n); [tauto|]. rewrite in_app_iff. simpl. intros [H|[<-|[]]]; auto. Qed.
+Lemma in_remove_bound x l b : In x (remove_bound l b) -> In x l.
+Proof. unfold remove_bound. rewrite filter_In. tauto. Qed.
+Lemma in_merge_names x : forall b a, In x (merge_names a b) -> In x a \/ In x b.
+Proof.
+  induction b as [|n r IH]; intros a; simpl; [tauto|]. intros H. apply IH in H as [H|H]; [|tauto].
+  destruct (name_exists a n); [tauto|]. apply in_app_iff in H as [H|[<-|[]]]; tauto.
+Qed.
+
+Lemma free_names_chans_mut :
+  (forall f x k, In x (free_names f) -> In k (name_chans x) -> In k (form_chans f)) /\
+  (forall b acc x k, In x (free_names_brs acc b) -> In k (name_chans x) -> (In x acc \/ In k (brs_chans b))).
+Proof.
+  apply form_branches_ind; simpl; intros;
+    repeat match goal with
+    | H : In _ (append_if_not_self _ _) |- _ => apply in_append_if_not_self in H as [->|H]
+    | H : In _ (merge_names _ _) |- _ => apply in_merge_names in H as [H|H]
+    | H : In _ (remove_bound _ _) |- _ => apply in_remove_bound in H
+    | H : In _ [] |- _ => destruct H
+    end; rewrite ?in_app_iff; eauto 6.
+  - (* FCase *) destruct (H _ _ _ H0 H1) as [H2|H2]; [|tauto]. apply in_append_if_not_self in H2 as [->|[]]. tauto.
+  - (* FCall *)
+    assert (Hf : forall l acc, In x (fold_left (fun acc n => append_if_not_self n acc) l acc) -> In x acc \/ In x l).
+    { induction l as [|a l IH]; simpl; [tauto|]. intros acc Hx. apply IH in Hx as [Hx|Hx]; [|tauto].
+      apply in_append_if_not_self in Hx as [->|Hx]; tauto. }
+    apply Hf in H as [[]|H]. apply in_flat_map. eauto.
+  - (* BrCons *) destruct (H0 _ _ _ H1 H2) as [H3|H3]; [|tauto]. apply in_merge_names in H3 as [H3|H3]; [tauto|].
+    apply in_remove_bound in H3. right. left. eauto.
+Qed.
+Lemma free_names_chans f x k : In x (free_names f) -> In k (name_chans x) -> In k (form_chans f).
+Proof. apply free_names_chans_mut. Qed.
+
+Lemma NoDup_app_intro' {A} (l1 l2 : list A) : NoDup l1 -> NoDup l2 -> (forall x, In x l1 -> In x l2 -> False) -> NoDup (l1 ++ l2).
+Proof.
+  induction l1 as [|a r IH]; simpl; intros N1 N2 Dj; auto. inversion N1; subst. constructor.
+  - rewrite in_app_iff. intros [H|H]; [tauto|]. apply (Dj a); auto.
+  - apply IH; auto. intros x Hx Hr. apply (Dj x); auto.
+Qed.
+
+Lemma chs_app (a b : list name) : chs (a ++ b) = chs a ++ chs b.
+Proof. apply flat_map_app. Qed.
+
+Lemma merge_names_nodup : forall b a, NoDup (chs a) -> NoDup (chs (merge_names a b)).
+Proof.
+  induction b as [|n r IH]; intros a Ha; simpl; [exact Ha|]. apply IH.
+  destruct (name_exists a n) eqn:E; [exact Ha|]. rewrite chs_app. simpl. rewrite app_nil_r.
+  unfold name_chans at 2. destruct (chan n) as [k|] eqn:En; [|by rewrite app_nil_r].
+  apply NoDup_app_intro'; [exact Ha|repeat constructor; simpl; tauto|].
+  intros j Hj [<-|[]]. apply in_flat_map in Hj as (x & Hx & Hjx). unfold name_chans in Hjx.
+  destruct (chan x) as [kx|] eqn:Ex; [|destruct Hjx]. destruct Hjx as [->|[]].
+  assert (name_exists a n = true); [|congruence]. unfold name_exists. apply existsb_exists. exists x. split; [done|].
+  unfold name_equal, initialized. rewrite Ex, En. simpl. unfold cid_eqb. destruct (list_eq_dec Nat.eq_dec k k); done.
+Qed.
+
+Lemma free_names_brs_nodup : forall b acc, NoDup (chs acc) -> NoDup (chs (free_names_brs acc b)).
+Proof. induction b as [|l p k r IH]; intros acc Ha; simpl; [exact Ha|]. apply IH. by apply merge_names_nodup. Qed.
+
+Definition recv_form (f : form) : Prop :=
+  match f with FRecv _ _ _ _ | FCase _ _ | FWait _ _ | FShift _ _ _ => True | _ => False end.
+
+Lemma small_nodup n : NoDup (chs (append_if_not_self n [])).
+Proof.
+  unfold append_if_not_self. destruct (is_self n); simpl; [constructor|]. rewrite app_nil_r. unfold name_chans.
+  destruct (chan n); repeat constructor; simpl; tauto.
+Qed.
+
+Lemma free_names_nodup_recv f : recv_form f -> NoDup (chs (free_names f)).
+Proof.
+  destruct f; simpl; try done; intros _.
+  - apply merge_names_nodup, small_nodup.
+  - apply free_names_brs_nodup, small_nodup.
+  - apply merge_names_nodup, small_nodup.
+  - apply merge_names_nodup, small_nodup.
+Qed.
+
+Section GcRecv.
+Variable D : tenv.
+Variable F : list fundef.
+Variable teq : sty -> sty -> Prop.
+Hypothesis Hteq : teq_laws D teq.
+
+(* the receipt of a GC request by a process waiting on its provider channel (handleNegativeDropRequest):
+   the process ends; every free name of its body gets a droppable forward *)
+Theorem topo_gc_recv Δ c p pp k st m e :
+  cfg_typed D F teq Δ c -> Topo c -> ns_ok c -> procs c !! p = Some pp ->
+  recv_form (pr_body0 pp) -> cids_of (pr_provs pp) = [k] ->
+  chans c !! k = Some st -> ch_buf st = Some m -> ch_closed st = false -> m_rule m = RGC ->
+  on_message p pp m = EOk e -> Topo (apply_effect (put_msg c k st None) p pp e).
+Proof.
+  intros Hc Ht Hns Hp Hform Hprov Hk Hb Hopen Hgc He.
+  assert (Hmsg : obj_in c (OMsg k m)) by (exists st; done).
+  assert (Hnf : match pr_body0 pp with FFwd _ _ _ => true | _ => false end = false) by (destruct (pr_body0 pp); done).
+  unfold on_message in He. rewrite Hgc, Hnf in He. cbn [rule_eqb andb negb] in He.
+  destruct (droppable_fwds p pp (free_names (pr_body0 pp))) as [[ss cs] p2] eqn:Ed. injection He as <-.
+  pose proof (topo_finish_fwds c p pp k st m (free_names (pr_body0 pp))) as Hfin. unfold after_finish in Hfin. rewrite Ed in Hfin.
+  assert (Hmr : refs (OMsg k m) = [k]) by (cbn; by rewrite Hgc).
+  assert (Hmp : provides (OMsg k m) = []) by (cbn; by rewrite Hgc).
+  apply Hfin; try done.
+  - intros i Hi. destruct (fresh_above D F teq Δ c p pp Hc Hns Hp (pr_next pp + i) ltac:(lia)) as (H1 & _ & H3). done.
+  - intros i Hi. destruct (fresh_above D F teq Δ c p pp Hc Hns Hp (pr_next pp + length (free_names (pr_body0 pp)) + i) ltac:(lia)) as (_ & H2 & _). done.
+  - by apply free_names_nodup_recv.
+  - intros j Hj. left. apply in_flat_map in Hj as (x & Hx & Hjx). cbn. apply elem_In. eapply free_names_chans; eauto.
+  - intros j [Hj|Hj]; [|rewrite Hmp in Hj; by apply elem_of_nil in Hj].
+    cbn in Hj. rewrite Hprov in Hj. apply elem_of_list_singleton in Hj as ->. split.
+    + intros o2 Ho2 Hj2. right. eapply (topo_ref_unique c Ht); eauto. rewrite Hmr. set_solver.
+    + intros Hin. apply in_flat_map in Hin as (x & Hx & Hjx).
+      assert (Hkr : k ∈ refs (OProc p pp)) by (cbn; apply elem_In; eapply free_names_chans; eauto).
+      eapply (topo_ne c (OProc p pp) k k); eauto. cbn. rewrite Hprov. set_solver.
+Qed.
+End GcRecv.
